@@ -4,6 +4,9 @@ import json
 props = [json.loads(l) for l in open('/verif/properties.jsonl')]
 # id -> (technique, level text, level note, design ref)
 built = {
+ "C19": ("callback-stream monitor: three debugger variants (recording, scribbling, debug.NewDebugger) vs no debugger; trace-grammar automaton; snapshot-hash continuity; lock-step reference model",
+         "Each program runs four times (no debugger / recording / scribbling over every snapshot / default debugger with three attached functions per hook). Verdict and error text must be identical, the recording and scribbling callback streams (kind + snapshot hash) identical, the stream accepted by the lifecycle automaton with exactly one terminal callback matching the result, BeforeStep(k+1) = AfterStep(k), stacks per step equal to the node-rule model, attached functions FIFO. Quick ~40k programs / 3M callbacks. Held on the executions observed.",
+         "The live []byte argument of stack callbacks and State.Scripts are outside 'stack data inside a snapshot' and are not scribbled. Grammar derived from the documented lifecycle.", "DESIGN.md §3 C19"),
  "C08": ("caller-buffer canary + frame-rule monitor on the library's own Before/AfterStep snapshots + lock-step reference model, over a provenance x transformer matrix",
          "16 ways of producing a twin of a stack item (script push, DUP, 2DUP, 3DUP, OVER, 2OVER, PICK, TUCK, IFDUP, SPLIT halves, alt-stack, ROT/SWAP/ROLL) x 32 value-changing opcodes x 12 operand encodings x both eras x context variants are executed; after every step everything outside the opcode's footprint must be byte-identical, the stacks must equal the node-rule model, and after Execute the caller's script buffers, tx serialisation and previous output must be unchanged (except the documented recording of the spent output). Plus the C05 random/vector/mutant programs. Held on the executions observed.",
          "Footprint table written from the opcode definitions (PICK/ROLL/CHECKMULTISIG judged by lock-step only); relies on State snapshots being deep copies (checked by C19).", "DESIGN.md §3 C08"),
